@@ -33,7 +33,7 @@ func (neverReady) ClientID() string               { return "gw-1" }
 func TestPropConvergenceRemoteMode(t *testing.T) {
 	sub := stats.NewSub("convergence-in-remote-limiter-mode", "rapid: 2-6 valid versions of one cluster (shared generator, global members and the GlobalRateLimiter gate allowed; one version in three takes parts back from an earlier one) applied in order with ClusterInfo.Sync to a ClusterInfo created for --rate-limiter=remote with a limiter-server client set that knows no server; oracle: fingerprint(live) == fingerprint(a ClusterInfo created from the latest version alone); non-trivial = the GlobalRateLimiter gate is switched between two versions; distinct by FNV-64 of the versions")
 	noProbe := func(e *clusters.EndpointInfo) bool { return false }
-	stats.Check(t, stats.N(600, 4000), func(t *rapid.T) {
+	stats.Check(t, stats.N(1200, 6000), func(t *rapid.T) {
 		n := rapid.IntRange(2, 6).Draw(t, "versions")
 		var versions []*proxyv1alpha1.UpstreamCluster
 		desc := ""
